@@ -12,7 +12,7 @@ TRUST = ("Trusted: TLC 1.8/SANY/CommunityModules; the guarded hooks report each 
 
 CHECKS = {
     "C01": dict(cat="model_checking", tech="TLA+ design model (TLC, exhaustive small constants) + TLC trace validation of hook-instrumented solver runs with measured residuals judged by the spec",
-                text="IRSolver.tla is model-checked exhaustively (all init/compute histories up to 4 calls, faults, every flag/breakdown choice): flags that are returned always belong to the returned Ritz pairs of a valid factorization. Every recorded execution of SymEigsSolver/HermEigsSolver/SymEigsShiftSolver (random + structured families, 3 scalar types, all rules, partial convergence, second compute, user start vectors) is replayed through the same actions by TLC; at every num_converged and at return the measured residual/norm/orthogonality of every flagged pair is judged by the spec's acceptance formula.",
+                text="IRSolver.tla is model-checked exhaustively (all init/compute histories up to 4 calls, faults, every flag/breakdown choice): flags that are returned always belong to the returned Ritz pairs of a valid factorization. Every recorded execution of SymEigsSolver/HermEigsSolver/SymEigsShiftSolver (random + structured families, 3 scalar types, all rules, partial convergence, second compute, user start vectors) is replayed through the same actions by TLC; at every num_converged and at return the measured residual/norm/orthogonality of every flagged pair is judged by the spec's acceptance formula. Session 4: near breakdowns down to 1e-15 from an invariant subspace; the public-call contract (IRPublic.PubStep) is judged on every call - after an init() nothing is handed back.",
                 ref="6 C01"),
     "C02": dict(cat="model_checking", tech="TLA+ design model + TLC trace validation with measured residuals, reference-spectrum distance and duplicate detection",
                 text="Same machinery as C01 for GenEigsSolver/GenEigsRealShiftSolver/GenEigsComplexShiftSolver: measured residual against the user's A, unit norm, distance to the long-double reference spectrum of A (eigenvalues reported in A's spectrum), no duplicated eigenpair, flags fresh at return; histories include second runs on the complex-shift solver.",
@@ -23,11 +23,11 @@ CHECKS = {
     "C04": dict(cat="model_checking", tech="exact rational oracle in TLA+ (Transform.tla) for the wanted set of the transformed spectrum, checked on recorded runs with prescribed integer spectra",
                 text="Matrices/pencils with prescribed (Gaussian-)integer spectra; on every Successful return TLC computes nu = 1/(l-s), l/(l-s), (l+s)/(l-s), d/(d^2+s^2) as exact fractions, ranks them by the rule (cross-multiplication, BothEnds split) and requires the returned index set to be the wanted set; ambiguous/insufficiently separated cases are skipped and counted. The documented meaning of the rules in shift modes is itself model-checked (MC_Transform).",
                 ref="6 C04"),
-    "C05": dict(cat="model_checking", tech="TLA+ design model + exact TLC trace validation of public observations against hook events",
-                text="Counts/status/ordering/counter clauses are decided exactly: the design model proves the counter and status relations for all histories; trace validation checks on every recorded call that return value = accessor sizes <= nev, status iff all, eigenvectors(m) prefix, ordering by the sorting rule (integer ranks of the library's own keys), num_operations = true applications (counting wrapper, probe solves separated), restarts <= maxit, NotComputed before compute.",
+    "C05": dict(cat="model_checking", tech="TLA+ design model + exact TLC trace validation of public observations against hook events + IRPublic.tla (public-call contract) refined by IRSolver.tla (TLC refinement check) + TLC-generated public call histories executed on all 11 solver classes",
+                text="Counts/status/ordering/counter clauses are decided exactly: the design model proves the counter and status relations for all histories; trace validation checks on every recorded call that return value = accessor sizes <= nev, status iff all, eigenvectors(m) prefix, ordering by the sorting rule (integer ranks of the library's own keys), num_operations = true applications (counting wrapper, probe solves separated), restarts <= maxit, NotComputed before compute. Session 4: IRPublic.tla states the contract at the granularity of public calls (big-step relation PubStep: counters, status, count, operator-application bounds, rejected and faulted calls); TLC checks that IRSolver.tla refines it (every return to idle is one PubStep of the projected state; negative control) and generates every public call history up to length 2 (quick) / 3 (thorough), which the drivers execute on all 11 solver classes; TraceIR judges every observed init()/compute() against PubStep using the harness lines alone (no hook event).",
                 ref="6 C05"),
-    "C06": dict(cat="model_checking", tech="digest equality across TLC-validated call histories + design invariant InitMakesFresh",
-                text="For every history over {init, init(v1), init(v2), compute(a|b|bad rule), init(0), new object} up to length 3 (sampled in quick, exhaustive for three classes in thorough) the digest of all public results and counters of 'init(v); compute(args)' equals that of a fresh object; the operator is probed before and after every run (shift still in force). The design model proves init() restores the post-init state after every history with faults.",
+    "C06": dict(cat="model_checking", tech="digest equality across TLC-validated call histories + design invariant InitMakesFresh + TLC-generated public call histories (MC_IRPubGen over IRPublic.tla) + operator object re-shifted between solvers",
+                text="For every history over {init, init(v1), init(v2), compute(a|b|bad rule), init(0), new object} up to length 3 (sampled in quick, exhaustive for three classes in thorough) the digest of all public results and counters of 'init(v); compute(args)' equals that of a fresh object; the operator is probed before and after every run (shift still in force). The design model proves init() restores the post-init state after every history with faults. Session 4: the histories before the observed pair are generated by TLC from IRPublic.tla (all 1 085 sequences over N I V1 V2 Z C0 C1 C2 C3 F1 up to length 3 in quick, 10 589 up to length 4 in thorough, spread over all 11 classes); in the shift classes the operator object is used with another shift and put back between the baseline and the observed object (token S): the operator probe and the digests must not change.",
                 ref="6 C06"),
     "C07": dict(cat="model_checking", tech="TLC-generated call sequences of spec/Krylov.tla (all behaviours up to a length bound, TLC -dump) executed on the real Arnoldi/Lanczos classes and validated by TLC against the same actions (spec -> code -> spec), plus TLC trace validation of per-step Krylov measurements (A V = V H + f e', V'BV = I, V'Bf = 0, shape, advertised k) of recorded solver runs",
                 text="TLC enumerates every sequence of public calls of the factorization object (init, rejected init, partial/full factorize_from, empty and rejected factorize_from, compress_H with single and double shifts, compress_V) up to a length bound; harness/drv_krylov.cpp executes each on real/complex/B-inner-product Arnoldi and Lanczos objects with exact, interior and exterior shifts; spec/TraceKrylov.tla replays the record through the same guards/updates, checks subspace_dim, exceptions, unchanged state on rejected calls, operator counts, hook events, the Krylov identities after every hand-over and the similarity/shape relations while shifts are pending. In addition, at FacInit, every FacStep, FacDone, CompressV of every recorded solver run the harness measures the three identities in long double with its own copy of the operator; the trace spec tracks k through compress_H/compress_V and judges the measurements (bound grows with the number of restarts), the Hessenberg/tridiagonal shape and the advertised dimension.",
@@ -47,20 +47,20 @@ CHECKS = {
     "C12": dict(cat="model_checking", tech="exhaustive argument tables of the real constructors/init/compute checked row by row by TLC against ArgCheck.tla",
                 text="12 solver classes x n in 1..12 x (nev, ncv) in [-2, n+3]^2, SVD shapes up to 6x6, square-only wrappers for every shape up to 4x4, sigma = 0 in buckling/Cayley, zero start vector, nine rules x {selection, sorting} x maxit in {0,1,30} x seven classes: outcome must be accept / std::invalid_argument exactly as documented, rejected constructions leave no live heap block, the object is usable after a rejected compute().",
                 ref="6 C12"),
-    "C13": dict(cat="model_checking", tech="TLA+ design model with liveness + exhaustive token-pattern model of nev_adjusted/shift loop + TLC validation of degenerate-input runs with heap canaries",
-                text="IRSolver.tla: work bound, restart bound, dimension/shift-index ranges and termination (liveness under fairness) for all histories; NevAdjust.tla: restart size in range and every shift-loop index read in range for ALL token arrangements (ncv<=7) with a negative control; recorded runs on zero/identity/nilpotent/rank-deficient/permutation/orthogonal/skew/tied inputs, scalings 2^-26..2^26, extreme (nev,ncv), maxit from 0: no abort/assertion, documented outcome, finite results, valid operator arguments, heap canaries intact, work bound. Apalache discharges the restart-size range over unbounded integers (with a refuted negative control); the thorough tier adds an ASan+UBSan build of the traced harness as auxiliary observation.",
+    "C13": dict(cat="model_checking", tech="TLA+ design model with liveness + exhaustive token-pattern model of nev_adjusted/shift loop + TLC validation of degenerate-input runs with heap canaries + exact-tie spectra at subspace sizes 17..40",
+                text="IRSolver.tla: work bound, restart bound, dimension/shift-index ranges and termination (liveness under fairness) for all histories; NevAdjust.tla: restart size in range and every shift-loop index read in range for ALL token arrangements (ncv<=7) with a negative control; recorded runs on zero/identity/nilpotent/rank-deficient/permutation/orthogonal/skew/tied inputs, scalings 2^-26..2^26, extreme (nev,ncv), maxit from 0: no abort/assertion, documented outcome, finite results, valid operator arguments, heap canaries intact, work bound. Apalache discharges the restart-size range over unbounded integers (with a refuted negative control); the thorough tier adds an ASan+UBSan build of the traced harness as auxiliary observation. Session 4: exact ties in the selection key at ncv 17..40 (beyond the small-array paths of std::sort), every rule as selection and as sorting argument; a driver killed by a signal is recorded as an Abort row (violation), not as an infrastructure failure.",
                 ref="6 C13"),
-    "C14": dict(cat="model_checking", tech="fault enumeration at every operator application index, traces validated by TLC (OpThrows action), digest equality with the fault-free baseline",
-                text="For six solver classes the wrapper throws a tagged exception at application k for k over the fault-free run's applications (every 3rd/7th in quick, all and pairs in thorough): the same exception reaches the caller, the event prefix is a behaviour of the spec with OpThrows, and init(); compute() afterwards reproduces the fault-free digest; repeated identical executions leave the same number of live heap blocks.",
+    "C14": dict(cat="model_checking", tech="fault enumeration at every operator application index, traces validated by TLC (OpThrows action), digest equality with the fault-free baseline + fault kinds: exception outside std::exception, operator returning NaN so that the library's own wrapper throws; UsableAfterFault",
+                text="For six solver classes the wrapper throws a tagged exception at application k for k over the fault-free run's applications (every 3rd/7th in quick, all and pairs in thorough): the same exception reaches the caller, the event prefix is a behaviour of the spec with OpThrows, and init(); compute() afterwards reproduces the fault-free digest; repeated identical executions leave the same number of live heap blocks. Session 4: faults of a type outside the std::exception hierarchy at every application index (incl. the eigenvalue-recovery solves of the complex-shift solver); the user's A operator returning one NaN entry so that the library's own SparseRegularInverse wrapper is what throws; rule UsableAfterFault: the fault-free retry after the fault is removed must not fail; every observed call judged against IRPublic.PubStep (PInitFault / PComputeFault).",
                 ref="6 C14"),
-    "C15": dict(cat="model_checking", tech="Davidson.tla design model of the search-space bookkeeping, whose operators (DavidsonOps) TLC also replays over the JDIter hook events of every recorded run (sizes, restarts, adjusted parameters) + TLC validation of the recorded results with true residuals",
-                text="Design model: for all (n <= 12, nev, initial, maximal) in the documented domain the small eigenproblem always has at least nev and at most n basis vectors, iterations bounded, documented status. Runs (dense/sparse, four rules, restarts, user guesses, second compute on the same object, correction size below nev): Successful implies compute() = nev, every true residual (recomputed from the harness' own A in long double) below tol, unit norm, orthonormal, ordered by the rule, and the returned set is the wanted end of the reference spectrum; results always finite.",
+    "C15": dict(cat="model_checking", tech="Davidson.tla design model of the search-space bookkeeping, whose operators (DavidsonOps) TLC also replays over the JDIter hook events of every recorded run (sizes, restarts, adjusted parameters) + TLC validation of the recorded results with true residuals + compute_with_guess() after compute() on one object; opposite-sign LargestMagn family",
+                text="Design model: for all (n <= 12, nev, initial, maximal) in the documented domain the small eigenproblem always has at least nev and at most n basis vectors, iterations bounded, documented status. Runs (dense/sparse, four rules, restarts, user guesses, second compute on the same object, correction size below nev): Successful implies compute() = nev, every true residual (recomputed from the harness' own A in long double) below tol, unit norm, orthonormal, ordered by the rule, and the returned set is the wanted end of the reference spectrum; results always finite. Session 4: a compute_with_guess() with another rule and two iterations after a successful compute() on the same object (the status must describe this call); matrices with two wanted eigenvalues of nearly equal magnitude and opposite sign converging at different speeds (the order of the Ritz pairs changes while some are converged).",
                 ref="6 C15"),
     "C16": dict(cat="model_checking", tech="TLC-generated call sequences of MC_SVDSeq (all behaviours up to a length bound, TLC -dump) executed on the real PartialSVDSolver and replayed by TLC through the same SV_* operators (spec -> code -> spec); Apalache proves the read invariants inductive for unbounded calls; PartialSVD.tla design model with negative control; TLC validation of recorded runs against a long double reference SVD",
                 text="Design model: every sequence of compute/matrix_U/matrix_V up to 6 calls reads the most recent computation and min(k, nconv) columns. Runs (tall/wide/square, dense col/row-major, sparse, rank-deficient, close singular values with partial convergence, two compute() calls per object): finite non-negative non-increasing singular values matching the reference, U'U = V'V = I, AV = US, A'U = VS, column counts for every k and call order, bit-identical to a fresh solver after a second compute().",
                 ref="6 C16"),
-    "C17": dict(cat="model_checking", tech="LOBPCG.tla shape-algebra design model (with negative control), whose operators (LOBPCGOps) TLC also replays over the LobIter hook events of every recorded run + TLC validation of recorded results against a long double generalized reference",
-                text="Design model: all n <= 14, 5k < n, block-size sequences: every product conformable, eigenvectors() is n x k, residuals() n x k. Runs (sparse symmetric incl. indefinite A, SPD B, preconditioner): when info() reports success the eigenvalues are the k smallest ascending, X is n x k with X'BX = I, residuals() = AX - BX Lambda with column norms below tol*n.",
+    "C17": dict(cat="model_checking", tech="LOBPCG.tla shape-algebra design model (with negative control), whose operators (LOBPCGOps) TLC also replays over the LobIter hook events of every recorded run + TLC validation of recorded results against a long double generalized reference + object-level call-history model (compute / setB / compute) with three negative controls",
+                text="Design model: all n <= 14, 5k < n, block-size sequences: every product conformable, eigenvectors() is n x k, residuals() n x k. Runs (sparse symmetric incl. indefinite A, SPD B, preconditioner): when info() reports success the eigenvalues are the k smallest ascending, X is n x k with X'BX = I, residuals() = AX - BX Lambda with column norms below tol*n. Session 4: LOBPCG.tla models the object through call histories (StatusDescribesThisCall, IterateIsBOrthonormal; negative controls V_ResetInfo, V_Reorth); the driver runs a second compute() with an unattainable tolerance, setB() with another B followed by compute(), and pencils scaled by 1e-9; defect D20 (stale Success) found and fixed.",
                 ref="6 C17"),
     "C18": dict(cat="model_checking", tech="exhaustive table of the real argsort/SortEigenvalue checked row by row by TLC against SelectionRule.tla (relation, not transcription)",
                 text="Every vector of length 0..7 over the tie-rich alphabets x 9 rules x {argsort, SortEigenvalue<real>, SortEigenvalue<complex>}: permutation, ordered by the rule's exact integer key, BothEnds prefix property for every k, rejection of undefined rules; plus random long vectors. The oracle's satisfiability is model-checked.",
@@ -68,8 +68,8 @@ CHECKS = {
     "C19": dict(cat="model_checking", tech="ParkMiller.tla (independent double-and-add definition, primitive-root proof by TLC) + full 2^31-2 cycle walk certified at 1024 checkpoints + sampled transitions, seeds, draws, call-site streams",
                 text="TLC proves 16807 is a primitive root mod 2^31-1 (single cycle) and Next = Schrage on structured samples; the real next_long_rand is walked over the whole cycle with TLC certifying every 2^21-th state and the end point; seeds of the library's forms normalise into 1..M-1; draws lie in [-0.5,0.5] and equal state/M; the start vector of default init() of three solver classes is the seed-0 stream for first, second and repeated use.",
                 ref="6 C19"),
-    "C20": dict(cat="model_checking", tech="Threads.tla interleaving model over the code's location map (with negative control) + event-for-event identity of concurrent and sequential hook traces",
-                text="Design model: all interleavings of 3 solver instances; private operators and a shared product wrapper are conflict free, a shared shift-solve wrapper is not (negative control). Runs: 2/4/8/16 threads, private or one shared fresh Dense/Sparse Sym/Gen product wrapper, generic and breakdown-heavy jobs: each job's per-thread hook-event stream digest and result digest equal those of the job run alone. The thorough tier adds a ThreadSanitizer build of the same driver as auxiliary observation.",
+    "C20": dict(cat="model_checking", tech="Threads.tla interleaving model over the code's location map (with negative control) + event-for-event identity of concurrent and sequential hook traces + isolated re-execution in a pristine process (server forked before any solver ran)",
+                text="Design model: all interleavings of 3 solver instances; private operators and a shared product wrapper are conflict free, a shared shift-solve wrapper is not (negative control). Runs: 2/4/8/16 threads, private or one shared fresh Dense/Sparse Sym/Gen product wrapper, generic and breakdown-heavy jobs: each job's per-thread hook-event stream digest and result digest equal those of the job run alone. The thorough tier adds a ThreadSanitizer build of the same driver as auxiliary observation. Session 4: the isolated re-execution runs in a grandchild of a server process forked before the driver ran its first solver, so function-local statics fixed by whichever solver came first are not inherited.",
                 ref="6 C20"),
 }
 
